@@ -237,6 +237,13 @@ for _n, _p, _fns, _t in [
     ("merge_restores_whole", ["C16"], ["bump_box::BumpBox<[T]>::merge", "bump_box::BumpBox<[T]>::split_at"], "merge of the two adjacent parts of split_at is the original slice (address, length, every element)"),
     ("merge_non_adjacent_panics", ["C16"], ["bump_box::BumpBox<[T]>::merge"], "merging non-adjacent parts never returns (must-not-reach cover unsatisfiable; panics)"),
     ("split_off_first_last_and_spare", ["C16"], ["bump_box::BumpBox<[T]>::{split_off_first,split_off_last}", "fixed_bump_vec::FixedBumpVec::split_at_spare"], "element + rest partition the slice in order; split_at_spare: initialized part and spare capacity adjacent, lengths add up to the capacity"),
+    ("split_off_all_ranges_len3", ["C16", "C08"], ["bump_box::BumpBox<[T]>::split_off", "polyfill::slice::range"], "for EVERY range lo..hi of a slice of length 3 (symbolic element values): lengths add up, the part is the range in order, the rest keeps its order, parts adjacent and inside the original"),
+    ("split_off_all_ranges_len4", ["C16", "C08"], ["bump_box::BumpBox<[T]>::split_off"], "the same for length 4"),
+    ("split_off_all_ranges_len5", ["C16", "C08"], ["bump_box::BumpBox<[T]>::split_off"], "the same for length 5"),
+    ("split_off_all_ranges_len6", ["C16", "C08"], ["bump_box::BumpBox<[T]>::split_off"], "the same for length 6"),
+    ("fixed_split_off_all_ranges_len4", ["C16", "C08"], ["fixed_bump_vec::FixedBumpVec::split_off"], "for EVERY range of a fixed vector of length 4 / capacity 6: lengths and capacities add up, capacity >= len, part and rest in order, buffers disjoint and inside the original"),
+    ("fixed_split_off_all_ranges_len5", ["C16", "C08"], ["fixed_bump_vec::FixedBumpVec::split_off"], "the same for length 5"),
+    ("fixed_split_off_all_ranges_len6", ["C16", "C08"], ["fixed_bump_vec::FixedBumpVec::split_off"], "the same for length 6 (full)"),
     ("drops_clear", ["C06"], ["bump_box::BumpBox<[T]>::clear", "Drop for BumpBox"], "every element dropped exactly once"),
     ("drops_truncate", ["C06"], ["bump_box::BumpBox<[T]>::truncate"], "every element dropped exactly once"),
     ("drops_remove", ["C06"], ["bump_box::BumpBox<[T]>::remove"], "removed value not dropped until the caller drops it; every element dropped exactly once"),
@@ -246,7 +253,29 @@ for _n, _p, _fns, _t in [
     ("leak_routes_skip_drop", ["C06"], ["bump_box::BumpBox::{leak,into_raw}"], "the explicit leak routes drop nothing"),
     ("into_iter_drops_rest", ["C06"], ["owned_slice::into_iter::IntoIter::{next,next_back,drop}"], "partially consumed IntoIter (both ends): every element dropped exactly once"),
 ]:
-    k("h_coll::" + _n, _p, _fns, "B", _t, bound=_CB, timeout=900)
+    k("h_coll::" + _n, _p, _fns, "B", _t, bound=(_CB if "all_ranges" not in _n else "concrete length (3..6) and every concrete range, element values symbolic (u8)"), timeout=900)
+
+# strings (C09): concrete byte-length pattern of the characters, symbolic scalar values within each length class
+_SB = "text of <=2 characters with a concrete byte-length pattern [a,b] (a,b in 1..4), every scalar value of those lengths symbolic; every byte index enumerated; buffer of 8 bytes"
+_quick_pats = {"1_0", "4_0", "1_2", "2_3", "3_1", "4_4", "2_1", "3_4"}
+for _a in (1, 2, 3, 4):
+    for _b in (0, 1, 2, 3, 4):
+        _pn = "%d_%d" % (_a, _b)
+        k("h_coll::str_ops_pat_" + _pn, ["C09", "C16"], ["bump_box::BumpBox<str>::{truncate,split_off,remove,pop,assert_char_boundary}"], "B",
+          "truncate / split_off(idx..) / remove at every boundary index and pop: same result and contents as std::string::String, contents valid UTF-8 (independent validator)",
+          tier=("quick" if _pn in _quick_pats else "thorough"), bound=_SB, timeout=900, inst="pattern [%d,%d]" % (_a, _b))
+for _pn in ("1_2", "3_1", "2_4", "4_3", "4_4"):
+    k("h_coll::fixed_str_grow_pat_" + _pn, ["C09", "C07"], ["fixed_bump_string::FixedBumpString::{try_insert,try_insert_str,try_push_str,try_replace_range,from_utf8_unchecked,capacity}"], "B",
+      "at every boundary index: the try_ operation succeeds iff the result fits the fixed capacity; on success same contents as String, on failure contents unchanged; always valid UTF-8; capacity fixed",
+      tier=("quick" if _pn in ("1_2", "4_4") else "thorough"), bound=_SB, timeout=1800, inst="pattern " + _pn)
+for _pn in ("2_3", "4_1", "3_4", "1_2"):
+    k("h_coll::str_bad_index_pat_" + _pn, ["C09"], ["bump_box::BumpBox<str>::{truncate,split_off,remove,assert_char_boundary}"], "B",
+      "for every out-of-range or non-boundary index (symbolic over all of them) truncate (inside the string) / split_off / remove never return (must-not-reach cover unsatisfiable; panic)",
+      bound=_SB, timeout=900, inst="pattern " + _pn, should_panic=True)
+for _l in (2, 3, 4):
+    k("h_coll::from_utf8_len%d" % _l, ["C09"], ["bump_box::BumpBox<str>::from_utf8"], "B",
+      "BumpBox::from_utf8 accepts exactly the byte strings core::str::from_utf8 accepts; the harness' own validator agrees with std",
+      bound="all byte strings of length %d" % _l, timeout=900)
 
 
 def for_property(pid, tier):
